@@ -22,7 +22,7 @@ EXPLANATION = (
     "an inner abort to the parent."
 )
 ASSUMPTIONS = stepflow_assumptions = [
-    "environment bounded: at most 2 requests per run, one aborting receiver per run, plan nesting depth <= 3",
+    "environment bounded: at most 2 (thorough: 3) requests per run, one aborting receiver per run, plan nesting depth <= 3",
     "single-threaded; wall-clock ordering is not a notion of the model",
 ]
 
